@@ -729,6 +729,10 @@ func streamLeafCriteria(c map[string]any) *modelv1.Criteria {
 	sort.Ints(vs)
 	var val *modelv1.TagValue
 	multi := op == "in" || op == "notin" || op == "having" || op == "nothaving"
+	if multi && len(vs) > 0 && (vs[0]+len(vs))%2 == 1 {
+		// a literal list means the set of its elements: a repeated element must not change the answer
+		vs = append(vs, vs[0])
+	}
 	switch {
 	case tag == "b" && multi:
 		var ss []string
